@@ -307,3 +307,54 @@ def post_c20(pid, tier, insts, workdir):
 
 
 PROPS["C20"]["post"] = post_c20
+
+
+def post_unicode(pid, tier, insts, workdir):
+    """Unicode assumptions validated on the real tables with unicodedata (not solver-decided);
+    for C07 also the KNOWN-FINDING lines of the literal prefix clause"""
+    import hashlib
+    from . import core, langdata, driver
+    extra = {"coverage": {}, "violations": [], "inconclusive": [], "known_lines": []}
+    try:
+        langs = core.Builder(workdir).langs()
+    except core.BuildError as e:
+        extra["inconclusive"].append(("language dump", str(e)))
+        return extra
+    n, fails = langdata.validate_unicode(langs)
+    extra["coverage"]["unicode_validation"] = {
+        "checked": n, "failures": fails[:20],
+        "what": "every word NFKD-stable, NFKD(NFC(word)) == word, every separator NFKD-normalises to one ASCII space "
+                "(Python unicodedata %s on the tables dumped from the current tree by a gcc build)" % __import__("unicodedata").unidata_version}
+    if fails and pid == "C07":
+        import json, os
+        path = os.path.join("replays", "C07-unicode-0.json")
+        json.dump({"property": "C07", "harness": "unicode validation (unicodedata)", "failures": fails[:200]},
+                  open(os.path.join(core.VERIF, path), "w"), indent=1)
+        extra["violations"].append("VIOLATION property=C07 replay=%s" % path)
+        print("    unicode validation: %s" % "; ".join(fails[:3]))
+    elif fails:
+        extra["inconclusive"].append(("unicode validation", "; ".join(fails[:3])))
+    if pid == "C07":
+        known, _ = driver.load_known()
+        for k in known:
+            if k["property"] != "C07" or not (k["key"] or "").startswith("prefix-words-"):
+                continue
+            lid = k["key"][len("prefix-words-"):]
+            L = [x for x in langs if x["id"] == lid]
+            if not L:
+                continue
+            strip = bool(L[0]["has_accents"])
+            ws = [bytes(c for c in w if c < 0x80) if strip else w for w in L[0]["words"]]
+            present = sorted(set(a for a, b in langdata.prefix_pairs(ws)))
+            listed = [w for w in k["text"].split() if w.startswith("words=")][0][6:].split(",")
+            still = [w for w in listed if w.encode() in present]
+            if still:
+                extra["known_lines"].append(
+                    "KNOWN-FINDING: property=C07 %s word list: %d listed three-letter words are prefixes of other words "
+                    "(literal clause 'no word is a prefix of another'; frozen BIP-39 data): %s" % (
+                        lid, len(still), ",".join(still)))
+    return extra
+
+
+for _p in ("C01", "C07", "C08", "C12", "C17"):
+    PROPS[_p]["post"] = post_unicode
